@@ -376,7 +376,7 @@ func guarded(info *types.Info, body *ast.BlockStmt, op ast.Node, names []string,
 					}
 				default:
 					ast.Inspect(s, func(n ast.Node) bool {
-						if n == nil || (n == s && !isCaseClause(s)) {
+						if _, isSw := n.(*ast.SwitchStmt); n == nil || (n == s && !isCaseClause(s) && !isSw) {
 							return true
 						}
 						switch y := n.(type) {
